@@ -227,7 +227,7 @@ func tooManyPairs(res any, bad *string) bool {
 	for _, g := range res.([]*object.FromExtendedSpatialIDToQuadkeyAndVerticalID) {
 		total += len(g.InnerIDList())
 	}
-	if total > 200000 {
+	if total > 20000 {
 		*bad = fmt.Sprintf("%d (quadkey, vertical ID) pairs returned - far beyond anything this call can correctly return", total)
 		return true
 	}
